@@ -192,6 +192,8 @@ def check_case(ctx, case, drv):
     ctx.count("exact-points", sum(exact))
     if drv is not None:
         for o in COMBOS:
+            if "raised" in obs[tag(o)]:
+                continue        # already reported above (translation raises under this combination only)
             for which in ("dae", "initial"):
                 a = drv.ask({"op": "residual", "model": js, "points": jcase["points"], "which": which, "opts": o})
                 if not a.get("ok"):
@@ -259,7 +261,17 @@ def fixed_cases():
             "  for i in 1:3 loop\n    x[i] = horner(y * i, q);\n  end for;\nend M;\n")
     pts5 = [{"time": [F(0)], "x": [F(2), F(1), F(-1)], "y": [F(3)], "z": [F(1)], "q": [F(3)]},
             {"time": [F(0)], "x": [F(1, 2), F(0), F(4)], "y": [F(-2)], "z": [F(0)], "q": [F(-1)]}]
-    return [{"text": txt5, "name": "M", "points": pts5, "ranges": {}, "features": ["for-equation", "function"]},
+    txt6 = ("package Valve\n  function curve\n    input Real dp;\n    input Real k;\n    output Real q;\n  algorithm\n    q := k * dp + 1;\n  end curve;\nend Valve;\n"
+            "package Pump\n  function curve\n    input Real dp;\n    input Real k;\n    output Real q;\n  algorithm\n    q := k - 2 * dp * dp;\n  end curve;\nend Pump;\n"
+            "model M\n  parameter Integer n = 17;\n  Real a[9];\n  Real b[n];\n  Real c[26];\n  Real x;\n  parameter Real p = 2;\nequation\n"
+            "  x = Valve.curve(a[1], p) - 3 * Pump.curve(a[2], p);\n"
+            "  for i in 1:9 loop\n    a[i] = Pump.curve(x, i) + Valve.curve(i, p);\n  end for;\n"
+            "  for j in 1:n loop\n    b[j] = j * x - b[j];\n  end for;\n"
+            "  for k in 2:26 loop\n    c[k] = c[k-1] + k * p;\n  end for;\n  c[1] = x;\nend M;\n")
+    pts6 = [{"time": [F(0)], "n": [F(17)], "a": [F(k % 4 - 1) for k in range(9)], "b": [F(k % 5) / 2 for k in range(17)],
+             "c": [F(3 - k % 7) for k in range(26)], "x": [F(2)], "p": [F(3)]}]
+    return [{"text": txt6, "name": "M", "points": pts6, "ranges": {}, "features": ["for-equation", "function"]},
+            {"text": txt5, "name": "M", "points": pts5, "ranges": {}, "features": ["for-equation", "function"]},
             {"text": txt4, "name": "M", "points": pts4, "ranges": {}, "features": ["for-equation", "function"]},
             {"text": txt3, "name": "M", "points": pts3, "ranges": {}, "features": ["for-equation", "function"]},
             {"text": txt, "name": "M", "points": pts, "ranges": {}, "features": ["for-equation", "function"]},
@@ -352,7 +364,7 @@ def random_models(ctx, drv, n, npoints):
             break
         g = a08.ModelGen(ctx.rng, npoints, count=lambda k: ctx.count("g:" + k), loops=True,
                          functions=ctx.rng.choice([1, 1, 2]), delay=ctx.rng.random() < 0.4, twin_calls=0.7,
-                         bilinear_attr=ctx.rng.random() < 0.6)
+                         bilinear_attr=ctx.rng.random() < 0.6, pkg_funcs=0.5, long_loops=0.25)
         case = g.make()
         st = check_case(ctx, case, drv)
         calls = "call" in " ".join(k for k in ()) or ("f0(" in case["text"].split("model M")[1])
